@@ -31,10 +31,17 @@ static std::string exec_case(const Args &a) {
         size_t max = (size_t)a.num("max");
         std::string sepb = parse_bytes(a.get("sep"));
         return guarded([&]() -> std::string {
-            if (form == "char") return show_vec(s.split(sepb.empty() ? (char)0 : sepb[0], max, cs));
-            if (form == "cstr") { CStr c(sepb); return show_vec(s.split(c.p, max, cs)); }
+            // calls that omit max_splits (unlimited) and / or the case mode (case_sensitive) must agree with the explicit call
+            bool dcs = cs == ST::case_sensitive, dmax = max == ST_AUTO_SIZE;
+            auto chk = [&](const std::vector<ST::string> &with, auto without_cs, auto without_both) {
+                if (dcs && !(with == without_cs())) default_mismatch() = true;
+                if (dcs && dmax && !(with == without_both())) default_mismatch() = true;
+                return show_vec(with);
+            };
+            if (form == "char") { char ch = sepb.empty() ? (char)0 : sepb[0]; return chk(s.split(ch, max, cs), [&] { return s.split(ch, max); }, [&] { return s.split(ch); }); }
+            if (form == "cstr") { CStr c(sepb); return chk(s.split(c.p, max, cs), [&] { return s.split(c.p, max); }, [&] { return s.split(c.p); }); }
             ST::string sep = raw_string(sepb);
-            return show_vec(s.split(sep, max, cs));
+            return chk(s.split(sep, max, cs), [&] { return s.split(sep, max); }, [&] { return s.split(sep); });
         });
     }
     if (op == "sp.tok") {
@@ -56,6 +63,12 @@ static std::string exec_case(const Args &a) {
             else if (ff != "str") r = s.replace(fp, raw_string(tb), cs, m);
             else if (tf != "str") r = s.replace(raw_string(fb), tp, cs, m);
             else r = s.replace(raw_string(fb), raw_string(tb), cs);
+            // the defaulted forms: case_sensitive, ST_DEFAULT_VALIDATION
+            if (cs == ST::case_sensitive) {
+                bool dm = m == ST_DEFAULT_VALIDATION;
+                if (ff != "str" && tf != "str") { if (dm && (!(r == s.replace(fp, tp, cs)) || !(r == s.replace(fp, tp)))) default_mismatch() = true; }
+                else if (ff == "str" && tf == "str") { if (!(r == s.replace(raw_string(fb), raw_string(tb)))) default_mismatch() = true; }
+            }
             if (r.c_str()[r.size()] != 0) return "!noterm";
             return "ok " + hex_units(r.c_str(), r.size());
         });
@@ -97,6 +110,9 @@ static void gen(Emitter &em, const Options &opt) {
     emit("sp.split form=cstr ci=0 max=5 sep=- s=610062");
     emit("sp.split form=str ci=0 max=" + SMAX + " sep=- s=610062");
     emit("sp.split form=cstr ci=1 max=" + SMAX + " sep=- s=00");
+    for (const char *form : {"str", "cstr", "char"})
+        for (const char *mx : {"18446744073709551614", "9223372036854775808", "9223372036854775807", "1152921504606846976"})
+            emit(std::string("sp.split form=") + form + " ci=0 max=" + mx + " sep=2c s=612c622c2c63");
 
     // ---- split: every short subject x every short separator (incl. empty, self-overlapping, longer than
     //      the subject) x max_splits x case mode x overload
@@ -138,7 +154,10 @@ static void gen(Emitter &em, const Options &opt) {
                 size_t pl = rng.chance(1, 4) ? 14 + rng.below(5) : rng.below(8);
                 b += rand_bytes(rng, pl, rng.chance(1, 2) ? "abAB,:- xz" : std::string("ab\0\xc3\xa9,a", 7));
             }
-            std::string mx = rng.chance(1, 2) ? SMAX : u(rng.below(7));
+            // huge limits that are not the "unlimited" constant: a limit is an upper bound, never an expected count
+            static const std::vector<std::string> HUGE_MAX = {"18446744073709551614", "18446744073709551613", "9223372036854775807", "9223372036854775808",
+                                                              "4611686018427387904", "1152921504606846976"};
+            std::string mx = rng.chance(1, 2) ? SMAX : rng.chance(1, 5) ? rng.pick(HUGE_MAX) : u(rng.below(7));
             std::string tail = " ci=" + u(rng.below(2)) + " max=" + mx + " sep=" + hex_bytes(sp) + " s=" + hex_bytes(b);
             emit("sp.split form=str" + tail);
             emit("sp.split form=cstr" + tail);
